@@ -9,7 +9,8 @@
    to [option]; the equations show the division panics never happen.
    Functions without a hand model (NewDate, NewDate32, Precision.Duration) get their
    specification here. *)
-From CH Require Import model.Scalars gen.Consts gen.ScalFuns.
+From CH Require Import model.TypeStr gen.TypeNames proofs.TypeStrProofs.
+From CH Require Import model.Scalars model.ScalCols gen.Consts gen.ScalFuns.
 From CH Require Import proofs.CalendarProofs proofs.ScalarsProofs proofs.ScalarsProofs2 proofs.IntervalProofs.
 From Coq Require Import Lia ZArith List Bool ZifyBool.
 Import ListNotations.
@@ -319,3 +320,634 @@ Theorem go_interval_add_quarters_impl : forall v t,
   - 536870912 <= v <= 536870912 ->
   go_Interval_Add (mk_go_Interval IntervalQuarter v) t = go_Interval_Add (mk_go_Interval IntervalMonth (4 * v)) t.
 Proof. intros v t. rewrite !go_Interval_Add_eq. apply interval_add_quarters_impl. Qed.
+
+
+(* ================================================================================================== *)
+(* C20y: the temporal COLUMNS' methods, translated from proto/col_date*.go (gen/ScalFuns.v), are the    *)
+(* hand model of model/ScalCols.v; AppendArr is the fold of Append; and, over the translated methods,  *)
+(* every value appended after ANY history of one column object is read back by Row as the instant      *)
+(* truncated to the column's CURRENT precision in its CURRENT location.                                *)
+(* ================================================================================================== *)
+
+(* ---- slices -------------------------------------------------------------------------------------- *)
+Lemma slice_index_cases {A} (s : list A) i :
+  (slice_oob s i = true /\ slice_at s i = None) \/ (slice_oob s i = false /\ exists x, slice_at s i = Some x).
+Proof. unfold slice_oob. destruct (slice_at s i) as [x|]; [right; eauto | left; auto]. Qed.
+
+Lemma slice_get_at s i x : slice_at s i = Some x -> slice_get s i = x.
+Proof. unfold slice_get. intros ->. reflexivity. Qed.
+
+Lemma slice_at_app_r {A} (s t : list A) i : 0 <= i -> slice_at (s ++ t) (slice_len s + i) = slice_at t i.
+Proof.
+  intros Hi. unfold slice_at, slice_len.
+  destruct (Z.of_nat (length s) + i <? 0) eqn:E1; [lia|]. destruct (i <? 0) eqn:E2; [lia|].
+  rewrite nth_error_app2 by lia. f_equal. lia.
+Qed.
+
+Lemma slice_at_last {A} (s : list A) x : slice_at (s ++ [x]) (slice_len s) = Some x.
+Proof. replace (slice_len s) with (slice_len s + 0) by lia. rewrite slice_at_app_r by lia. reflexivity. Qed.
+
+Lemma slice_at_nth {A} (s : list A) k : slice_at s (Z.of_nat k) = nth_error s k.
+Proof. unfold slice_at. destruct (Z.of_nat k <? 0) eqn:E; [lia|]. rewrite Nat2Z.id. reflexivity. Qed.
+
+Lemma slice_at_In {A} (s : list A) i x : slice_at s i = Some x -> In x s.
+Proof. unfold slice_at. destruct (i <? 0); [discriminate|]. apply nth_error_In. Qed.
+
+Lemma slice_at_mid (pre suf : list Z) z : slice_at (pre ++ z :: suf) (slice_len pre) = Some z.
+Proof. replace (slice_len pre) with (slice_len pre + 0) by lia. rewrite slice_at_app_r by lia. reflexivity. Qed.
+
+Lemma slice_set_mid (pre suf : list Z) z e : slice_set (pre ++ z :: suf) (slice_len pre) e = pre ++ e :: suf.
+Proof.
+  unfold slice_set, slice_len. destruct (Z.of_nat (length pre) <? 0) eqn:E; [lia|]. rewrite Nat2Z.id.
+  clear E. induction pre as [|x pre IH]; [reflexivity|]. cbn [length app list_set]. rewrite IH. reflexivity.
+Qed.
+
+Lemma slice_len_snoc {A} (s : list A) x : slice_len (s ++ [x]) = slice_len s + 1.
+Proof. unfold slice_len. rewrite app_length. cbn [length]. lia. Qed.
+
+(* ---- the shape of the three `for i, v := range vs { dates[i] = f(v) }` loops ----------------------- *)
+(* filling the zeroed buffer element by element IS the map; the index check never fails *)
+Ltac fill_loop f :=
+  let vs := fresh "vs" in let IH := fresh "IH" in let pre := fresh "pre" in let suf := fresh "suf" in
+  let H := fresh "H" in let v := fresh "v" in let z := fresh "z" in
+  intros vs; induction vs as [|v vs IH]; intros pre suf H;
+  [ destruct suf; [|discriminate]; cbn; rewrite !app_nil_r; reflexivity
+  | destruct suf as [|z suf]; [discriminate|]; cbn [map];
+    cbn -[slice_oob slice_set slice_len Z.add];
+    unfold slice_oob; rewrite slice_at_mid, slice_set_mid;
+    replace (pre ++ f v :: suf) with ((pre ++ [f v]) ++ suf) by (rewrite <- app_assoc; reflexivity);
+    rewrite <- (slice_len_snoc pre (f v)); rewrite IH by (cbn [length] in H; lia);
+    rewrite <- app_assoc; reflexivity ].
+
+Lemma go_ColDate_AppendArr_range1_eq : forall vs pre suf, length suf = length vs ->
+  go_ColDate_AppendArr_range1 vs (slice_len pre) (pre ++ suf) = Some (pre ++ map go_ToDate vs).
+Proof. fill_loop go_ToDate. Qed.
+Lemma go_ColDate32_AppendArr_range1_eq : forall vs pre suf, length suf = length vs ->
+  go_ColDate32_AppendArr_range1 vs (slice_len pre) (pre ++ suf) = Some (pre ++ map go_ToDate32 vs).
+Proof. fill_loop go_ToDate32. Qed.
+Lemma go_ColDateTime_AppendArr_range1_eq : forall vs pre suf, length suf = length vs ->
+  go_ColDateTime_AppendArr_range1 vs (slice_len pre) (pre ++ suf) = Some (pre ++ map go_ToDateTime vs).
+Proof. fill_loop go_ToDateTime. Qed.
+
+Lemma slice_make_len {A} (vs : list A) : length (slice_make (slice_len vs)) = length vs.
+Proof. unfold slice_make, slice_len. rewrite repeat_length. lia. Qed.
+
+Lemma map_ext_eq {A B} (f g : A -> B) l : (forall x, f x = g x) -> map f l = map g l.
+Proof. intros H. apply map_ext. exact H. Qed.
+
+(* ---- ColDate ---------------------------------------------------------------------------------------- *)
+Lemma go_ColDate_Append_eq : forall c v, go_ColDate_Append c v = col_date_AppendV c v.
+Proof. intros. unfold go_ColDate_Append, col_date_AppendV. rewrite go_ToDate_eq. reflexivity. Qed.
+
+(* the index checks of the batch never fail *)
+Lemma go_ColDate_AppendArr_eq : forall c vs, go_ColDate_AppendArr c vs = Some (col_date_AppendArr c vs).
+Proof.
+  intros. unfold go_ColDate_AppendArr, col_date_AppendArr. cbv zeta.
+  pose proof (go_ColDate_AppendArr_range1_eq vs [] (slice_make (slice_len vs)) (slice_make_len vs)) as R.
+  cbn [app] in R. change (slice_len (@nil Z)) with 0 in R. rewrite R.
+  cbn [app]. rewrite (map_ext_eq _ _ vs go_ToDate_eq). reflexivity.
+Qed.
+
+(* None = the index panic *)
+Lemma go_ColDate_Row_eq : forall loc c i, go_ColDate_Row loc c i = col_date_RowAt c i.
+Proof.
+  intros. unfold go_ColDate_Row, col_date_RowAt.
+  destruct (slice_index_cases c i) as [[-> ->]|[-> [x E]]]; [reflexivity|].
+  rewrite E, (slice_get_at _ _ _ E), go_Date_Time_eq. reflexivity.
+Qed.
+
+(* ---- ColDate32 -------------------------------------------------------------------------------------- *)
+Lemma go_ColDate32_Append_eq : forall c v, go_ColDate32_Append c v = col_date32_AppendV c v.
+Proof. intros. unfold go_ColDate32_Append, col_date32_AppendV. rewrite go_ToDate32_eq. reflexivity. Qed.
+
+Lemma go_ColDate32_AppendArr_eq : forall c vs, go_ColDate32_AppendArr c vs = Some (col_date32_AppendArr c vs).
+Proof.
+  intros. unfold go_ColDate32_AppendArr, col_date32_AppendArr. cbv zeta.
+  pose proof (go_ColDate32_AppendArr_range1_eq vs [] (slice_make (slice_len vs)) (slice_make_len vs)) as R.
+  cbn [app] in R. change (slice_len (@nil Z)) with 0 in R. rewrite R.
+  cbn [app]. rewrite (map_ext_eq _ _ vs go_ToDate32_eq). reflexivity.
+Qed.
+
+Lemma go_ColDate32_Row_eq : forall loc c i, go_ColDate32_Row loc c i = col_date32_RowAt c i.
+Proof.
+  intros. unfold go_ColDate32_Row, col_date32_RowAt.
+  destruct (slice_index_cases c i) as [[-> ->]|[-> [x E]]]; [reflexivity|].
+  rewrite E, (slice_get_at _ _ _ E), go_Date32_Time_eq. reflexivity.
+Qed.
+
+(* ---- ColDateTime ------------------------------------------------------------------------------------ *)
+(* c.loc() is never nil *)
+Lemma go_ColDateTime_loc_eq : forall loc c, go_ColDateTime_loc loc c = Some (col_dt_loc loc c).
+Proof. intros loc [d [l|]]; reflexivity. Qed.
+
+(* the rows are DateTime values (uint32) *)
+Lemma go_ColDateTime_Row_eq : forall loc c i, Forall is_u32 (dt_Data c) ->
+  go_ColDateTime_Row loc c i = col_dt_RowAt loc c i.
+Proof.
+  intros loc c i F. unfold go_ColDateTime_Row, col_dt_RowAt.
+  destruct (slice_index_cases (dt_Data c) i) as [[-> ->]|[-> [x E]]]; [reflexivity|].
+  rewrite E, (slice_get_at _ _ _ E), go_ColDateTime_loc_eq.
+  rewrite go_DateTime_Time_eq by (rewrite Forall_forall in F; apply F; eapply slice_at_In; exact E).
+  reflexivity.
+Qed.
+
+Lemma go_ColDateTime_AppendRaw_eq : forall c d, go_ColDateTime_AppendRaw c d = col_dt_AppendRaw c d.
+Proof. reflexivity. Qed.
+Lemma go_ColDateTime_Append_eq : forall c v, go_ColDateTime_Append c v = col_dt_Append c v.
+Proof. reflexivity. Qed.
+Lemma go_ColDateTime_AppendArr_eq : forall c vs, go_ColDateTime_AppendArr c vs = Some (col_dt_AppendArr c vs).
+Proof.
+  intros. unfold go_ColDateTime_AppendArr, col_dt_AppendArr. cbv zeta.
+  pose proof (go_ColDateTime_AppendArr_range1_eq vs [] (slice_make (slice_len vs)) (slice_make_len vs)) as R.
+  cbn [app] in R. change (slice_len (@nil Z)) with 0 in R. rewrite R.
+  reflexivity.
+Qed.
+
+(* Infer: what it does with the parsed zone (the parsing itself is the primitive parse_datetime_params) *)
+Lemma go_ColDateTime_Infer_eq : forall tzdb c t,
+  go_ColDateTime_Infer tzdb c t = col_dt_Infer (parse_datetime_params tzdb t) c.
+Proof.
+  intros. unfold go_ColDateTime_Infer, col_dt_Infer, parse_datetime_params, str_Trim, load_location.
+  destruct (ct_Elem t) as [|x e]; [reflexivity|]. cbn [str_eqb bytes_eqb]. cbv zeta.
+  destruct (tzdb _); reflexivity.
+Qed.
+
+(* ---- ColDateTime64 ---------------------------------------------------------------------------------- *)
+Lemma go_ColDateTime64_WithPrecision_eq : forall c p, go_ColDateTime64_WithPrecision c p = col_dt64_WithPrecision c p.
+Proof. reflexivity. Qed.
+Lemma go_ColDateTime64_WithLocation_eq : forall c l, go_ColDateTime64_WithLocation c l = col_dt64_WithLocation c l.
+Proof. reflexivity. Qed.
+Lemma go_ColDateTime64_loc_eq : forall loc c, go_ColDateTime64_loc loc c = Some (col_dt64_loc loc c).
+Proof. intros loc [d [l|] p s]; reflexivity. Qed.
+Lemma go_ColDateTime64_AppendRaw_eq : forall c d, go_ColDateTime64_AppendRaw c d = col_dt64_AppendRaw c d.
+Proof. reflexivity. Qed.
+
+Lemma parse_uint8_le s n : parse_uint8 s = Some n -> (n <= 255)%N.
+Proof.
+  unfold parse_uint8. destruct s; [discriminate|]. destruct (digits_val 0 _) as [m|]; [|discriminate].
+  destruct (m <=? 255)%N eqn:E; [|discriminate]. intros [= <-]. apply N.leb_le. exact E.
+Qed.
+
+(* Infer: precision, zone and the flag are replaced together and only when the whole type is accepted;
+   the rows are kept (the parsing itself is the primitive parse_datetime64_params) *)
+Lemma go_ColDateTime64_Infer_eq : forall tzdb c t,
+  go_ColDateTime64_Infer tzdb c t = col_dt64_Infer (parse_datetime64_params tzdb t) c.
+Proof.
+  intros. unfold go_ColDateTime64_Infer, col_dt64_Infer, parse_datetime64_params, str_Trim, str_Cut,
+    str_ParseUint8, load_location.
+  destruct (ct_Elem t) as [|x e]; [reflexivity|]. cbn [str_eqb bytes_eqb].
+  destruct (cut_byte 44%N (x :: e)) as [[pStr locStr] hasloc]. cbv zeta.
+  destruct (parse_uint8 _) as [n|] eqn:P; [|reflexivity]. cbv iota beta.
+  apply parse_uint8_le in P.
+  assert (U : u8 (Z.of_N n) = Z.of_N n) by (unfold u8; lia).
+  rewrite U. unfold go_Precision_Valid.
+  assert (V : (Z.of_N n <=? PrecisionMax) = (n <=? precision_max)%N).
+  { change PrecisionMax with 9. change precision_max with 9%N.
+    destruct (Z.of_N n <=? 9) eqn:E1, (n <=? 9)%N eqn:E2; try reflexivity; lia. }
+  rewrite V. destruct (n <=? precision_max)%N; [|reflexivity]. cbn [negb].
+  destruct hasloc; [|reflexivity]. destruct (tzdb _); reflexivity.
+Qed.
+
+(* the rows are DateTime64 values (int64); None = the panics (no precision set, index) *)
+Lemma go_ColDateTime64_Row_eq : forall loc c i, Forall in_i64z (dt64_Data c) ->
+  go_ColDateTime64_Row loc c i = col_dt64_RowAt loc c i.
+Proof.
+  intros loc c i F. unfold go_ColDateTime64_Row, col_dt64_RowAt.
+  destruct (dt64_PrecisionSet c); [|reflexivity]. cbn [negb].
+  destruct (slice_index_cases (dt64_Data c) i) as [[-> ->]|[-> [x E]]]; [reflexivity|].
+  rewrite E, (slice_get_at _ _ _ E), go_ColDateTime64_loc_eq.
+  rewrite go_DateTime64_Time_eq by (rewrite Forall_forall in F; apply F; eapply slice_at_In; exact E).
+  reflexivity.
+Qed.
+
+Lemma go_ColDateTime64_Append_eq : forall c v, go_ColDateTime64_Append c v = col_dt64_Append c v.
+Proof.
+  intros [d l p s] v. unfold go_ColDateTime64_Append, col_dt64_Append.
+  cbn [dt64_Data dt64_Location dt64_Precision dt64_PrecisionSet]. destruct s; [|reflexivity].
+  cbn [negb]. rewrite go_ToDateTime64_eq. reflexivity.
+Qed.
+
+Lemma go_ColDateTime64_AppendArr_range1_eq : forall vs k c,
+  go_ColDateTime64_AppendArr_range1 vs k c =
+  Some (mkColDT64 (dt64_Data c ++ map (fun v => to_datetime64 v (dt64_Precision c)) vs)
+                  (dt64_Location c) (dt64_Precision c) (dt64_PrecisionSet c)).
+Proof.
+  induction vs as [|v vs IH]; intros k c.
+  - cbn. rewrite app_nil_r. destruct c; reflexivity.
+  - cbn [go_ColDateTime64_AppendArr_range1 map]. rewrite go_ToDateTime64_eq, IH.
+    unfold go_ColDateTime64_AppendRaw. cbn [dt64_Data dt64_Location dt64_Precision dt64_PrecisionSet].
+    rewrite <- app_assoc. reflexivity.
+Qed.
+
+Lemma go_ColDateTime64_AppendArr_eq : forall c vs, go_ColDateTime64_AppendArr c vs = col_dt64_AppendArr c vs.
+Proof.
+  intros. unfold go_ColDateTime64_AppendArr, col_dt64_AppendArr. destruct (dt64_PrecisionSet c) eqn:E; [|reflexivity].
+  cbn [negb]. rewrite go_ColDateTime64_AppendArr_range1_eq, E. reflexivity.
+Qed.
+
+(* ---- AppendArr is the fold of Append (over the translated methods) --------------------------------- *)
+Definition obind {A B} (o : option A) (f : A -> option B) : option B := match o with Some a => f a | None => None end.
+
+Lemma fold_snoc_map {A} (f : A -> Z) vs : forall c, fold_left (fun c v => c ++ [f v]) vs c = c ++ map f vs.
+Proof.
+  induction vs as [|v vs IH]; intros c; cbn [fold_left map]; [rewrite app_nil_r; reflexivity|].
+  rewrite IH, <- app_assoc. reflexivity.
+Qed.
+
+Lemma fold_left_ext_eq {A B} (f g : A -> B -> A) l : (forall a b, f a b = g a b) -> forall a, fold_left f l a = fold_left g l a.
+Proof. intros H. induction l as [|b l IH]; intros a; cbn [fold_left]; [reflexivity|]. rewrite H. apply IH. Qed.
+
+Theorem go_ColDate_AppendArr_is_fold : forall c vs,
+  go_ColDate_AppendArr c vs = Some (fold_left go_ColDate_Append vs c).
+Proof.
+  intros. rewrite go_ColDate_AppendArr_eq. f_equal. unfold col_date_AppendArr.
+  rewrite <- (fold_snoc_map to_date). symmetry. apply fold_left_ext_eq. intros. apply go_ColDate_Append_eq.
+Qed.
+
+Theorem go_ColDate32_AppendArr_is_fold : forall c vs,
+  go_ColDate32_AppendArr c vs = Some (fold_left go_ColDate32_Append vs c).
+Proof.
+  intros. rewrite go_ColDate32_AppendArr_eq. f_equal. unfold col_date32_AppendArr.
+  rewrite <- (fold_snoc_map to_date32). symmetry. apply fold_left_ext_eq. intros. apply go_ColDate32_Append_eq.
+Qed.
+
+Theorem go_ColDateTime_AppendArr_is_fold : forall c vs,
+  go_ColDateTime_AppendArr c vs = Some (fold_left go_ColDateTime_Append vs c).
+Proof.
+  intros. rewrite go_ColDateTime_AppendArr_eq. f_equal. unfold col_dt_AppendArr.
+  revert c. induction vs as [|v vs IH]; intros c; cbn [fold_left map].
+  - rewrite app_nil_r. destruct c; reflexivity.
+  - rewrite <- IH. unfold go_ColDateTime_Append. cbn [dt_Data dt_Location]. rewrite <- app_assoc. reflexivity.
+Qed.
+
+(* with a precision set the batch is the fold of Append (a panic of one Append would end the fold);
+   without one both panic - the batch even when it is empty *)
+Theorem go_ColDateTime64_AppendArr_is_fold : forall c vs,
+  go_ColDateTime64_AppendArr c vs =
+  if dt64_PrecisionSet c then fold_left (fun oc v => obind oc (fun c => go_ColDateTime64_Append c v)) vs (Some c)
+  else None.
+Proof.
+  intros. rewrite go_ColDateTime64_AppendArr_eq. unfold col_dt64_AppendArr.
+  destruct (dt64_PrecisionSet c) eqn:E; [|reflexivity].
+  symmetry. revert c E. induction vs as [|v vs IH]; intros c E; cbn [fold_left map obind].
+  - rewrite app_nil_r. destruct c; cbn in *; subst; reflexivity.
+  - rewrite go_ColDateTime64_Append_eq. unfold col_dt64_Append. rewrite E.
+    rewrite IH by (cbn; exact E). unfold col_dt64_AppendRaw. cbn [dt64_Data dt64_Location dt64_Precision dt64_PrecisionSet].
+    rewrite <- app_assoc. reflexivity.
+Qed.
+
+(* ---- histories of ONE ColDateTime64 object, run on the TRANSLATED methods ---------------------------- *)
+(* None = a panic (Append / AppendArr without a precision); a failed Infer returns an error and the run goes on *)
+Definition go_dt64_step (tzdb : bytes -> option Z) (c : col_dt64) (op : dt64_op) : option col_dt64 :=
+  match op with
+  | OpAppend v => go_ColDateTime64_Append c v
+  | OpAppendArr vs => go_ColDateTime64_AppendArr c vs
+  | OpAppendRaw d => Some (go_ColDateTime64_AppendRaw c d)
+  | OpInfer t => Some (fst (go_ColDateTime64_Infer tzdb c t))
+  | OpWithPrecision p => Some (go_ColDateTime64_WithPrecision c p)
+  | OpWithLocation l => Some (go_ColDateTime64_WithLocation c l)
+  end.
+Fixpoint go_dt64_run (tzdb : bytes -> option Z) (c : col_dt64) (h : list dt64_op) : option col_dt64 :=
+  match h with
+  | [] => Some c
+  | op :: h' => obind (go_dt64_step tzdb c op) (fun c' => go_dt64_run tzdb c' h')
+  end.
+
+(* the parameters a history leaves, read off the operations alone: those of the LAST accepted Infer /
+   WithPrecision / WithLocation; appends and rejected types change nothing *)
+Definition dt64_params : Type := Z * option Z * bool.      (* precision, zone, precision set *)
+Definition dt64_params_of (c : col_dt64) : dt64_params := (dt64_Precision c, dt64_Location c, dt64_PrecisionSet c).
+Definition dt64_params_step (tzdb : bytes -> option Z) (q : dt64_params) (op : dt64_op) : dt64_params :=
+  let '(p, l, s) := q in
+  match op with
+  | OpInfer t => match parse_datetime64_params tzdb t with Some (p', l') => (p', l', true) | None => q end
+  | OpWithPrecision p' => (p', l, true)
+  | OpWithLocation l' => (p, l', s)
+  | _ => q
+  end.
+
+Lemma go_dt64_step_params : forall tzdb c op c',
+  go_dt64_step tzdb c op = Some c' -> dt64_params_of c' = dt64_params_step tzdb (dt64_params_of c) op.
+Proof.
+  intros tzdb c op c' H. unfold dt64_params_of, dt64_params_step. destruct op as [v|vs|d|t|p|l]; cbn [go_dt64_step] in H.
+  - rewrite go_ColDateTime64_Append_eq in H. unfold col_dt64_Append in H. destruct (dt64_PrecisionSet c) eqn:E; [|discriminate].
+    injection H as <-. cbn. rewrite ?E. reflexivity.
+  - rewrite go_ColDateTime64_AppendArr_eq in H. unfold col_dt64_AppendArr in H. destruct (dt64_PrecisionSet c) eqn:E; [|discriminate].
+    injection H as <-. cbn. rewrite ?E. reflexivity.
+  - injection H as <-. reflexivity.
+  - injection H as <-. rewrite go_ColDateTime64_Infer_eq. unfold col_dt64_Infer.
+    destruct (parse_datetime64_params tzdb t) as [[p l]|]; reflexivity.
+  - injection H as <-. reflexivity.
+  - injection H as <-. reflexivity.
+Qed.
+
+(* the statement the seeded change C20C violates: nothing but the operations' own parameters survives in the
+   object - in particular nothing derived from an EARLIER precision *)
+Theorem go_dt64_run_params : forall tzdb h c c',
+  go_dt64_run tzdb c h = Some c' ->
+  dt64_params_of c' = fold_left (dt64_params_step tzdb) h (dt64_params_of c).
+Proof.
+  intros tzdb h. induction h as [|op h IH]; intros c c' H; cbn [go_dt64_run fold_left] in *.
+  - injection H as <-. reflexivity.
+  - destruct (go_dt64_step tzdb c op) as [c1|] eqn:E; [|discriminate]. cbn [obind] in H.
+    rewrite (IH _ _ H), (go_dt64_step_params _ _ _ _ E). reflexivity.
+Qed.
+
+(* a stored tick count read back *)
+Lemma go_dt64_Row_stored : forall loc c i v,
+  dt64_PrecisionSet c = true -> 0 <= dt64_Precision c <= 9 ->
+  wf_time v -> t_IsZero v = false -> in_i64z (ticks_of v (dt64_Precision c)) ->
+  slice_at (dt64_Data c) i = Some (to_datetime64 v (dt64_Precision c)) ->
+  exists b, go_ColDateTime64_Row loc c i = Some b /\
+    unix b = unix v /\ nsec b = nsec v - nsec v mod precision_Scale (dt64_Precision c) /\
+    zoff b = col_loc loc (dt64_Location c).
+Proof.
+  intros loc c i v Hs Hp Hw Hz Hr E.
+  destruct (datetime64_rt loc (dt64_Precision c) v Hp Hw Hz Hr) as (Et & Eu & En & Eo).
+  unfold go_ColDateTime64_Row. rewrite Hs. cbn [negb].
+  unfold slice_oob. rewrite E, (slice_get_at _ _ _ E), go_ColDateTime64_loc_eq.
+  rewrite go_DateTime64_Time_eq by (rewrite Et; exact Hr).
+  eexists. split; [reflexivity|]. cbn [t_In unix nsec zoff]. unfold col_dt64_loc. repeat split; assumption.
+Qed.
+
+Definition dt64_op_ok (op : dt64_op) : Prop :=
+  match op with OpWithPrecision p => 0 <= p <= 9 | _ => True end.
+
+Lemma parse_datetime64_params_valid tzdb t p l : parse_datetime64_params tzdb t = Some (p, l) -> 0 <= p <= 9.
+Proof.
+  unfold parse_datetime64_params. destruct (ct_Elem t) as [|x e]; [discriminate|].
+  destruct (cut_byte 44%N (x :: e)) as [[pStr locStr] hasloc].
+  destruct (parse_uint8 _) as [n|]; [|discriminate].
+  destruct (n <=? precision_max)%N eqn:E; [|discriminate]. cbn [negb].
+  change precision_max with 9%N in E. apply N.leb_le in E.
+  destruct hasloc; [destruct (tzdb _); [|discriminate]|]; intros [= <- _]; lia.
+Qed.
+
+Lemma dt64_params_valid : forall tzdb h q, Forall dt64_op_ok h -> 0 <= fst (fst q) <= 9 ->
+  0 <= fst (fst (fold_left (dt64_params_step tzdb) h q)) <= 9.
+Proof.
+  intros tzdb h. induction h as [|op h IH]; intros q F Hq; cbn [fold_left]; [exact Hq|].
+  inversion F as [|? ? Hop F']; subst. apply IH; [exact F'|].
+  destruct q as [[p l] s]. unfold dt64_params_step. destruct op as [v|vs|d|t|p'|l']; cbn in *; try exact Hq; try exact Hop.
+  destruct (parse_datetime64_params tzdb t) as [[p' l']|] eqn:P; [|exact Hq].
+  cbn. eapply parse_datetime64_params_valid. exact P.
+Qed.
+
+(* THE HISTORY STATEMENT.  Whatever was done to the object before - values appended at another precision,
+   one by one or in batches, types with another precision or zone inferred, precision or zone set by hand -
+   the next value appended is stored as the instant's tick count at the precision the history leaves and is
+   read back by Row as that instant, rounded down to the tick, in the zone the history leaves. *)
+Theorem go_dt64_history_append_row : forall tzdb loc h c0 c v p l,
+  0 <= dt64_Precision c0 <= 9 -> Forall dt64_op_ok h ->
+  go_dt64_run tzdb c0 h = Some c ->
+  fold_left (dt64_params_step tzdb) h (dt64_params_of c0) = (p, l, true) ->
+  wf_time v -> t_IsZero v = false -> in_i64z (ticks_of v p) ->
+  exists c' b,
+    go_ColDateTime64_Append c v = Some c' /\
+    dt64_Data c' = dt64_Data c ++ [ticks_of v p] /\ dt64_params_of c' = (p, l, true) /\
+    go_ColDateTime64_Row loc c' (slice_len (dt64_Data c)) = Some b /\
+    unix b = unix v /\ nsec b = nsec v - nsec v mod precision_Scale p /\ zoff b = col_loc loc l.
+Proof.
+  intros tzdb loc h c0 c v p l Hp0 Hok Hrun Hpar Hw Hz Hr.
+  pose proof (go_dt64_run_params _ _ _ _ Hrun) as Q. rewrite Hpar in Q.
+  pose proof (dt64_params_valid tzdb h (dt64_params_of c0) Hok Hp0) as V. rewrite Hpar in V. cbn [fst] in V.
+  unfold dt64_params_of in Q. injection Q as Qp Ql Qs.
+  destruct (datetime64_rt loc p v V Hw Hz Hr) as (Et & _).
+  rewrite go_ColDateTime64_Append_eq. unfold col_dt64_Append. rewrite Qs, Qp.
+  destruct (go_dt64_Row_stored loc (col_dt64_AppendRaw c (to_datetime64 v p)) (slice_len (dt64_Data c)) v) as (b & Rb & Bu & Bn & Bo);
+    unfold col_dt64_AppendRaw; cbn [dt64_Data dt64_Location dt64_Precision dt64_PrecisionSet]; rewrite ?Qp; try assumption.
+  { apply slice_at_last. }
+  exists (col_dt64_AppendRaw c (to_datetime64 v p)), b. unfold dt64_params_of, col_dt64_AppendRaw in *.
+  cbn [dt64_Data dt64_Location dt64_Precision dt64_PrecisionSet] in *. rewrite Qp, Ql, Qs, Et in *. repeat split; assumption.
+Qed.
+
+(* the same for a batch: element k of the batch, on its own *)
+Theorem go_dt64_history_appendarr_row : forall tzdb loc h c0 c vs k v p l,
+  0 <= dt64_Precision c0 <= 9 -> Forall dt64_op_ok h ->
+  go_dt64_run tzdb c0 h = Some c ->
+  fold_left (dt64_params_step tzdb) h (dt64_params_of c0) = (p, l, true) ->
+  nth_error vs k = Some v ->
+  wf_time v -> t_IsZero v = false -> in_i64z (ticks_of v p) ->
+  exists c' b,
+    go_ColDateTime64_AppendArr c vs = Some c' /\
+    dt64_Data c' = dt64_Data c ++ map (fun v => to_datetime64 v p) vs /\ dt64_params_of c' = (p, l, true) /\
+    go_ColDateTime64_Row loc c' (slice_len (dt64_Data c) + Z.of_nat k) = Some b /\
+    unix b = unix v /\ nsec b = nsec v - nsec v mod precision_Scale p /\ zoff b = col_loc loc l.
+Proof.
+  intros tzdb loc h c0 c vs k v p l Hp0 Hok Hrun Hpar Hk Hw Hz Hr.
+  pose proof (go_dt64_run_params _ _ _ _ Hrun) as Q. rewrite Hpar in Q.
+  pose proof (dt64_params_valid tzdb h (dt64_params_of c0) Hok Hp0) as V. rewrite Hpar in V. cbn [fst] in V.
+  unfold dt64_params_of in Q. injection Q as Qp Ql Qs.
+  rewrite go_ColDateTime64_AppendArr_eq. unfold col_dt64_AppendArr. rewrite Qs, Qp, Ql.
+  set (c' := mkColDT64 _ _ _ _).
+  destruct (go_dt64_Row_stored loc c' (slice_len (dt64_Data c) + Z.of_nat k) v) as (b & Rb & Bu & Bn & Bo);
+    try assumption; try reflexivity.
+  { subst c'. cbn [dt64_Data dt64_Precision]. rewrite slice_at_app_r by lia. rewrite slice_at_nth.
+    rewrite nth_error_map, Hk. reflexivity. }
+  exists c', b. subst c'. cbn in *. repeat split; assumption.
+Qed.
+
+(* ---- Date / Date32 / DateTime columns: batches whose values carry different zone offsets ------------- *)
+(* the statement the seeded change C20A violates: every value of a batch lands on the calendar day it has in
+   ITS OWN zone, whatever the zones of its neighbours in the batch *)
+Theorem go_date_batch_row : forall loc c vs k v,
+  nth_error vs k = Some v -> t_IsZero v = false -> 0 <= local_day v < 65536 ->
+  exists c' b,
+    go_ColDate_AppendArr c vs = Some c' /\ c' = c ++ map to_date vs /\
+    go_ColDate_Row loc c' (slice_len c + Z.of_nat k) = Some b /\
+    b = mkT (86400 * local_day v) 0 0 /\ t_Date b = t_Date v.
+Proof.
+  intros loc c vs k v Hk Hz Hr. destruct (date_rt v Hz Hr) as (E & Er & Ed & _).
+  exists (c ++ map to_date vs), (date_Time (to_date v)).
+  rewrite go_ColDate_AppendArr_eq, go_ColDate_Row_eq. unfold col_date_AppendArr, col_date_RowAt.
+  rewrite slice_at_app_r by lia. rewrite slice_at_nth, nth_error_map, Hk. cbn [option_map].
+  repeat split; assumption.
+Qed.
+
+Theorem go_date32_batch_row : forall loc c vs k v,
+  nth_error vs k = Some v -> t_IsZero v = false -> - two31 <= local_day v < two31 ->
+  exists c' b,
+    go_ColDate32_AppendArr c vs = Some c' /\ c' = c ++ map to_date32 vs /\
+    go_ColDate32_Row loc c' (slice_len c + Z.of_nat k) = Some b /\
+    b = mkT (86400 * local_day v) 0 0 /\ t_Date b = t_Date v.
+Proof.
+  intros loc c vs k v Hk Hz Hr. destruct (date32_rt v Hz Hr) as (E & Er & Ed & _).
+  exists (c ++ map to_date32 vs), (date32_Time (to_date32 v)).
+  rewrite go_ColDate32_AppendArr_eq, go_ColDate32_Row_eq. unfold col_date32_AppendArr, col_date32_RowAt.
+  rewrite slice_at_app_r by lia. rewrite slice_at_nth, nth_error_map, Hk. cbn [option_map].
+  repeat split; assumption.
+Qed.
+
+(* single appends are the batches of one *)
+Theorem go_date_append_row : forall loc c v,
+  t_IsZero v = false -> 0 <= local_day v < 65536 ->
+  go_ColDate_Row loc (go_ColDate_Append c v) (slice_len c) = Some (mkT (86400 * local_day v) 0 0).
+Proof.
+  intros loc c v Hz Hr. destruct (date_rt v Hz Hr) as (E & Er & _).
+  rewrite go_ColDate_Append_eq, go_ColDate_Row_eq. unfold col_date_AppendV, col_date_RowAt.
+  rewrite slice_at_last. cbn [option_map]. f_equal. exact Er.
+Qed.
+Theorem go_date32_append_row : forall loc c v,
+  t_IsZero v = false -> - two31 <= local_day v < two31 ->
+  go_ColDate32_Row loc (go_ColDate32_Append c v) (slice_len c) = Some (mkT (86400 * local_day v) 0 0).
+Proof.
+  intros loc c v Hz Hr. destruct (date32_rt v Hz Hr) as (E & Er & _).
+  rewrite go_ColDate32_Append_eq, go_ColDate32_Row_eq. unfold col_date32_AppendV, col_date32_RowAt.
+  rewrite slice_at_last. cbn [option_map]. f_equal. exact Er.
+Qed.
+
+(* ---- histories of one ColDateTime object ---------------------------------------------------------------- *)
+Definition go_dt_step (tzdb : bytes -> option Z) (c : col_dt) (op : dt_op) : option col_dt :=
+  match op with
+  | DOpAppend v => Some (go_ColDateTime_Append c v)
+  | DOpAppendArr vs => go_ColDateTime_AppendArr c vs
+  | DOpAppendRaw d => Some (go_ColDateTime_AppendRaw c d)
+  | DOpInfer t => Some (fst (go_ColDateTime_Infer tzdb c t))
+  end.
+Fixpoint go_dt_run (tzdb : bytes -> option Z) (c : col_dt) (h : list dt_op) : option col_dt :=
+  match h with
+  | [] => Some c
+  | op :: h' => obind (go_dt_step tzdb c op) (fun c' => go_dt_run tzdb c' h')
+  end.
+Definition dt_zone_step (tzdb : bytes -> option Z) (l : option Z) (op : dt_op) : option Z :=
+  match op with
+  | DOpInfer t => match parse_datetime_params tzdb t with Some l' => l' | None => l end
+  | _ => l
+  end.
+
+(* a history never panics, keeps uint32 rows, and leaves the zone of the last accepted type *)
+Lemma go_dt_run_inv : forall tzdb h c, Forall is_u32 (dt_Data c) ->
+  (forall op d, In op h -> op = DOpAppendRaw d -> is_u32 d) ->
+  exists c', go_dt_run tzdb c h = Some c' /\ Forall is_u32 (dt_Data c') /\
+             dt_Location c' = fold_left (dt_zone_step tzdb) h (dt_Location c).
+Proof.
+  intros tzdb h. induction h as [|op h IH]; intros c F R; cbn [go_dt_run fold_left].
+  - exists c. auto.
+  - assert (S1 : exists c1, go_dt_step tzdb c op = Some c1 /\ Forall is_u32 (dt_Data c1) /\
+                            dt_Location c1 = dt_zone_step tzdb (dt_Location c) op).
+    { assert (U : forall t, is_u32 (to_datetime t)).
+      { intros t. unfold to_datetime. destruct (t_IsZero t); unfold is_u32, u32, two32; lia. }
+      destruct op as [v|vs|d|t]; cbn [go_dt_step dt_zone_step].
+      - eexists. split; [reflexivity|]. cbn. split; [|reflexivity]. apply Forall_app. split; [exact F|]. constructor; [apply U|constructor].
+      - rewrite go_ColDateTime_AppendArr_eq. eexists. split; [reflexivity|]. cbn. split; [|reflexivity].
+        apply Forall_app. split; [exact F|]. apply Forall_forall. intros x Hx. apply in_map_iff in Hx. destruct Hx as (t & <- & _). apply U.
+      - eexists. split; [reflexivity|]. cbn. split; [|reflexivity]. apply Forall_app. split; [exact F|].
+        constructor; [|constructor]. eapply R; [left; reflexivity|reflexivity].
+      - rewrite go_ColDateTime_Infer_eq. unfold col_dt_Infer. destruct (parse_datetime_params tzdb t); cbn; eexists; (split; [reflexivity|]); cbn; auto. }
+    destruct S1 as (c1 & E1 & F1 & L1). rewrite E1. cbn [obind].
+    destruct (IH c1 F1) as (c' & E' & F' & L'); [intros op' d Hin; apply R; right; exact Hin|].
+    exists c'. rewrite L1 in L'. auto.
+Qed.
+
+Theorem go_dt_history_append_row : forall tzdb loc h c0 c v,
+  Forall is_u32 (dt_Data c0) -> (forall op d, In op h -> op = DOpAppendRaw d -> is_u32 d) ->
+  go_dt_run tzdb c0 h = Some c ->
+  t_IsZero v = false -> 0 <= unix v < two32 ->
+  go_ColDateTime_Row loc (go_ColDateTime_Append c v) (slice_len (dt_Data c)) =
+  Some (mkT (unix v) 0 (col_loc loc (fold_left (dt_zone_step tzdb) h (dt_Location c0)))).
+Proof.
+  intros tzdb loc h c0 c v F R Hrun Hz Hr.
+  destruct (go_dt_run_inv tzdb h c0 F R) as (c1 & E1 & F1 & L1). rewrite Hrun in E1. injection E1 as <-.
+  destruct (datetime_rt loc (dt_Location c) v Hz Hr) as (Et & _ & Erow).
+  rewrite go_ColDateTime_Append_eq.
+  assert (U : is_u32 (to_datetime v)) by (rewrite Et; unfold is_u32; exact Hr).
+  rewrite go_ColDateTime_Row_eq.
+  2:{ cbn. apply Forall_app. split; [exact F1|]. constructor; [exact U|constructor]. }
+  unfold col_dt_RowAt, col_dt_Append, col_dt_AppendRaw. cbn [dt_Data dt_Location].
+  rewrite slice_at_last. cbn [option_map]. unfold col_datetime_Append in Erow. rewrite Erow, L1. reflexivity.
+Qed.
+
+(* ---- the primitive parse_datetime64_params IS the parsing of model/TypeStr.v --------------------------- *)
+(* TypeStr.datetime64_infer on a fresh column (old = None), with time.LoadLocation giving the zone [name l]
+   for the offset the column model uses: accepted exactly when the primitive gives parameters, and then
+   with the same precision and zone *)
+Lemma parse_datetime64_params_is_TypeStr : forall (tzdb : bytes -> option Z) (name : Z -> bytes) t,
+  datetime64_infer (fun s => option_map name (tzdb s)) None t =
+  match parse_datetime64_params tzdb t with
+  | Some (p, l) => rok (CDateTime64 (Z.to_N p) (option_map name l))
+  | None => Err EInvalid
+  end.
+Proof.
+  intros. unfold datetime64_infer, parse_datetime64_params, ct_Elem. rewrite elem_r_ok. cbn [rbind rok].
+  destruct (elem t) as [|x e]; [reflexivity|].
+  destruct (cut_byte 44%N (x :: e)) as [[pStr locStr] hasloc].
+  destruct (parse_uint8 _) as [n|]; [|reflexivity].
+  destruct (n <=? precision_max)%N; [|reflexivity]. cbn [negb].
+  destruct hasloc; [destruct (tzdb _); cbn [option_map]|]; rewrite ?N2Z.id; reflexivity.
+Qed.
+
+Lemma parse_datetime_params_is_TypeStr : forall (tzdb : bytes -> option Z) (name : Z -> bytes) t,
+  datetime_infer (fun s => option_map name (tzdb s)) t =
+  match parse_datetime_params tzdb t with
+  | Some l => rok (CDateTime (option_map name l))
+  | None => Err EInvalid
+  end.
+Proof.
+  intros. unfold datetime_infer, parse_datetime_params, ct_Elem. rewrite elem_r_ok. cbn [rbind rok].
+  destruct (elem t) as [|x e]; [reflexivity|]. destruct (tzdb _); reflexivity.
+Qed.
+
+(* ---- the tie of the column methods, as one statement ---------------------------------------------------- *)
+Definition column_tie : Prop :=
+  (forall c v, go_ColDate_Append c v = col_date_AppendV c v) /\
+  (forall c vs, go_ColDate_AppendArr c vs = Some (col_date_AppendArr c vs)) /\
+  (forall loc c i, go_ColDate_Row loc c i = col_date_RowAt c i) /\
+  (forall c v, go_ColDate32_Append c v = col_date32_AppendV c v) /\
+  (forall c vs, go_ColDate32_AppendArr c vs = Some (col_date32_AppendArr c vs)) /\
+  (forall loc c i, go_ColDate32_Row loc c i = col_date32_RowAt c i) /\
+  (forall tzdb c t, go_ColDateTime_Infer tzdb c t = col_dt_Infer (parse_datetime_params tzdb t) c) /\
+  (forall loc c, go_ColDateTime_loc loc c = Some (col_dt_loc loc c)) /\
+  (forall loc c i, Forall (fun d => 0 <= d < two32) (dt_Data c) -> go_ColDateTime_Row loc c i = col_dt_RowAt loc c i) /\
+  (forall c d, go_ColDateTime_AppendRaw c d = col_dt_AppendRaw c d) /\
+  (forall c v, go_ColDateTime_Append c v = col_dt_Append c v) /\
+  (forall c vs, go_ColDateTime_AppendArr c vs = Some (col_dt_AppendArr c vs)) /\
+  (forall c p, go_ColDateTime64_WithPrecision c p = col_dt64_WithPrecision c p) /\
+  (forall c l, go_ColDateTime64_WithLocation c l = col_dt64_WithLocation c l) /\
+  (forall tzdb c t, go_ColDateTime64_Infer tzdb c t = col_dt64_Infer (parse_datetime64_params tzdb t) c) /\
+  (forall loc c, go_ColDateTime64_loc loc c = Some (col_dt64_loc loc c)) /\
+  (forall loc c i, Forall in_i64z (dt64_Data c) -> go_ColDateTime64_Row loc c i = col_dt64_RowAt loc c i) /\
+  (forall c d, go_ColDateTime64_AppendRaw c d = col_dt64_AppendRaw c d) /\
+  (forall c v, go_ColDateTime64_Append c v = col_dt64_Append c v) /\
+  (forall c vs, go_ColDateTime64_AppendArr c vs = col_dt64_AppendArr c vs).
+
+Lemma column_tie_holds : column_tie.
+Proof.
+  unfold column_tie.
+  repeat match goal with |- _ /\ _ => split end.
+  - exact go_ColDate_Append_eq.
+  - exact go_ColDate_AppendArr_eq.
+  - exact go_ColDate_Row_eq.
+  - exact go_ColDate32_Append_eq.
+  - exact go_ColDate32_AppendArr_eq.
+  - exact go_ColDate32_Row_eq.
+  - exact go_ColDateTime_Infer_eq.
+  - exact go_ColDateTime_loc_eq.
+  - exact go_ColDateTime_Row_eq.
+  - exact go_ColDateTime_AppendRaw_eq.
+  - exact go_ColDateTime_Append_eq.
+  - exact go_ColDateTime_AppendArr_eq.
+  - exact go_ColDateTime64_WithPrecision_eq.
+  - exact go_ColDateTime64_WithLocation_eq.
+  - exact go_ColDateTime64_Infer_eq.
+  - exact go_ColDateTime64_loc_eq.
+  - exact go_ColDateTime64_Row_eq.
+  - exact go_ColDateTime64_AppendRaw_eq.
+  - exact go_ColDateTime64_Append_eq.
+  - exact go_ColDateTime64_AppendArr_eq.
+Qed.
+
+Definition appendarr_fold_tie : Prop :=
+  (forall c vs, go_ColDate_AppendArr c vs = Some (fold_left go_ColDate_Append vs c)) /\
+  (forall c vs, go_ColDate32_AppendArr c vs = Some (fold_left go_ColDate32_Append vs c)) /\
+  (forall c vs, go_ColDateTime_AppendArr c vs = Some (fold_left go_ColDateTime_Append vs c)) /\
+  (forall c vs, go_ColDateTime64_AppendArr c vs =
+     if dt64_PrecisionSet c then fold_left (fun oc v => obind oc (fun c => go_ColDateTime64_Append c v)) vs (Some c)
+     else None).
+Lemma appendarr_fold_tie_holds : appendarr_fold_tie.
+Proof.
+  repeat split.
+  - exact go_ColDate_AppendArr_is_fold.
+  - exact go_ColDate32_AppendArr_is_fold.
+  - exact go_ColDateTime_AppendArr_is_fold.
+  - exact go_ColDateTime64_AppendArr_is_fold.
+Qed.
